@@ -42,6 +42,8 @@ FAMILIES['C04'] = [
     fam('waitp-both-ends', ['TADD WAITP1 HOLD', 'HOLD', 'WAITP1 HOLD INTR0'], w=4),
     fam('waite-timeout-then-hold', ['TADD WAITE HOLD', 'HOLD'], w=3),
     fam('waite-cancelled', ['WAITE HOLD', 'HOLD CANCELE', 'TADD WAITE'], w=3),
+    fam('waite-cancelled-by-pattern', ['WAITE HOLD', 'HOLD CANCELE', 'TADD WAITE'], CANCELE_PATTERN=1, w=3),
+    fam('waite-cancelled-by-pattern-2-waiters', ['WAITE HOLD', 'WAITE', 'HOLD CANCELE HOLD'], CANCELE_PATTERN=1, w=3),
     fam('waite-interrupt-between', ['WAITE HOLD', 'HOLD INTR0'], PRIOSYM=1, w=3),
     fam('acquire-timeout-vs-grant', ['ACQ HOLD REL', 'TADD ACQ HOLD REL', 'ACQ HOLD REL'], w=3),
     fam('cond-timeout-vs-signal', ['TADD CWAIT HOLD', 'HOLD CSET CSIG', 'CWAIT'], w=3),
